@@ -12,7 +12,7 @@ func init() {
 		ID:    "C04",
 		Title: "deque.Deque equals an ideal double-ended sequence for every history",
 		Rules: []*Rule{
-			{ID: "C04.pop-zero", Floor: 4, Clause: "on every normal return of PopFront/PopBack the slot that was read into the result has been overwritten with the zero value (same index, before the index moves)",
+			{ID: "C04.pop-zero", Floor: 2, Clause: "on every normal return of PopFront/PopBack the slot that was read into the result has been overwritten with the zero value (same index, before the index moves)",
 				Run: ruleDequePopZero},
 			{ID: "C04.validate-first", Floor: 7, Clause: "in PopFront, PopBack, Item, Set and Shrink the explicit panic guard dominates every store and every element read; Front/Back/Item/Len contain no store",
 				Run: ruleDequeValidateFirst},
@@ -59,11 +59,22 @@ func ruleDequePopZero(c *Ctx, r *R) {
 			}
 			return 0, false
 		}
-		k := 0
-		for _, e := range pf.Exits(fn, ss(0)) {
-			k++
-			r.ok(e.States == ss(2), "deque.Deque."+spec[0]+"|return#"+itoa(k), retPos(e.Ret), "a path returns the popped item without having overwritten its slot with the zero value first: the deque keeps a reference to an element it no longer holds")
+		good := true
+		var bad *ssa.Return
+		exits := pf.Exits(fn, ss(0))
+		for _, e := range exits {
+			if e.States != ss(2) {
+				good = false
+				if bad == nil {
+					bad = e.Ret
+				}
+			}
 		}
+		pos := fn.Pos()
+		if bad != nil {
+			pos = retPos(bad)
+		}
+		r.ok(good && len(exits) > 0, "deque.Deque."+spec[0]+"|zeroed-on-every-return", pos, "a path returns the popped item without having overwritten its slot with the zero value first: the deque keeps a reference to an element it no longer holds")
 	}
 }
 
@@ -199,7 +210,7 @@ func ruleDequeIndexDiscipline(c *Ctx, r *R) {
 				k++
 				ip := path(x.Index)
 				key := name + "|index:" + ip + "#" + itoa(k)
-				okIdx := strings.HasSuffix(ip, ".front") || strings.HasSuffix(ip, ".back") || ip == "iter.i" || modReduced(x.Index)
+				okIdx := strings.HasSuffix(ip, ".front") || strings.HasSuffix(ip, ".back") || isIterPosition(x.Index) || modReduced(x.Index)
 				if phi, isPhi := x.Index.(*ssa.Phi); isPhi {
 					_ = phi
 				}
@@ -210,9 +221,19 @@ func ruleDequeIndexDiscipline(c *Ctx, r *R) {
 	// the iterator's position is itself only ever d.front or mod-reduced
 	if it := c.fn("container/deque.dequeIterator.Next"); it != nil {
 		good := true
+		posFields := map[string]bool{}
+		instrs(it, func(b *ssa.BasicBlock, i int, in ssa.Instruction) {
+			if ia, ok := in.(*ssa.IndexAddr); ok && isIterPosition(ia.Index) {
+				if ld, ok := resolveVal(ia.Index).(*ssa.UnOp); ok {
+					if fa, ok := ld.X.(*ssa.FieldAddr); ok {
+						posFields[fieldName(fa.X.Type(), fa.Field)] = true
+					}
+				}
+			}
+		})
 		instrs(it, func(b *ssa.BasicBlock, i int, in ssa.Instruction) {
 			if st, ok := in.(*ssa.Store); ok {
-				if _, f, ok := storedField(st.Addr); ok && f == "i" && !modReduced(st.Val) {
+				if _, f, ok := storedField(st.Addr); ok && posFields[f] && !modReduced(st.Val) {
 					good = false
 				}
 			}
@@ -252,6 +273,13 @@ func ruleDequeResize(c *Ctx, r *R) {
 	var lenCall, storeA ssa.Instruction
 	var frontV, backV ssa.Value
 	copies := 0
+	for _, di := range deepInstrs(rs, 2) {
+		if call, ok := di.in.(*ssa.Call); ok && len(di.calls) > 0 {
+			if bi, ok := call.Call.Value.(*ssa.Builtin); ok && bi.Name() == "copy" {
+				copies++ // a copy inside a helper that resize calls
+			}
+		}
+	}
 	instrs(rs, func(b *ssa.BasicBlock, i int, in ssa.Instruction) {
 		switch x := in.(type) {
 		case *ssa.Call:
@@ -285,18 +313,21 @@ func ruleDequeResize(c *Ctx, r *R) {
 	r.ok(copies >= 3, "deque.Deque.resize|copies-both-halves", rs.Pos(), "resize must copy the contiguous case and both halves of the wrapped case")
 	// all copies happen before d.a is replaced and read from the old d.a
 	okCopy := true
-	instrs(rs, func(b *ssa.BasicBlock, i int, in ssa.Instruction) {
-		if call, ok := in.(*ssa.Call); ok {
-			if bi, ok := call.Call.Value.(*ssa.Builtin); ok && bi.Name() == "copy" && storeA != nil {
-				if !(b.Dominates(storeA.Block()) || reaches(b, storeA.Block())) || (b == storeA.Block() && i > idxIn(storeA)) {
-					okCopy = false
-				}
-				if !strings.HasPrefix(path(call.Call.Args[1]), "d.a[") {
-					okCopy = false
-				}
+	for _, di := range deepInstrs(rs, 2) {
+		call, ok := di.in.(*ssa.Call)
+		if !ok {
+			continue
+		}
+		if bi, ok := call.Call.Value.(*ssa.Builtin); ok && bi.Name() == "copy" && storeA != nil {
+			sb := di.site.Block()
+			if !(sb.Dominates(storeA.Block()) || reaches(sb, storeA.Block())) || (sb == storeA.Block() && idxIn(di.site) > idxIn(storeA)) {
+				okCopy = false
+			}
+			if f, _, ok := rootField(call.Call.Args[1]); !ok || f != "a" {
+				okCopy = false
 			}
 		}
-	})
+	}
 	r.ok(okCopy, "deque.Deque.resize|copy-from-old-buffer", rs.Pos(), "the contents must be copied out of the old buffer before d.a is replaced")
 }
 
@@ -494,4 +525,14 @@ func ruleDequeIterTermination(c *Ctx, r *R) {
 		}
 	})
 	r.ok(after && k >= 1, "deque.dequeIterator.Next|terminates-after-back", fn.Pos(), "the iterator must record that it has yielded the back element (a flag or count), which is how it ends without a position comparison")
+}
+
+// isIterPosition: v is (a local copy of) an int field of the deque iterator struct - its cursor position.
+func isIterPosition(v ssa.Value) bool {
+	ld, ok := resolveVal(v).(*ssa.UnOp)
+	if !ok || ld.Op != token.MUL {
+		return false
+	}
+	fa, ok := ld.X.(*ssa.FieldAddr)
+	return ok && isNamedType(fa.X.Type(), "container/deque", "dequeIterator") && isIntType(ld.Type())
 }
